@@ -804,9 +804,23 @@ func c15Switches(w *World, r *Report, a *sqlAstInfo, sp *packages.Package) {
 			sig := p.TypesInfo.Defs[fd.Name].Type().(*types.Signature)
 			if sig.Params().Len() == 1 && sig.Results().Len() == 1 && types.Identical(sig.Params().At(0).Type(), kindT.Type()) &&
 				types.Identical(sig.Results().At(0).Type(), types.Typ[types.Bool]) {
-				nPred++
-
 				trueSet := kindPredicateTrueSet(p.TypesInfo, fd)
+
+				// a predicate about schema kinds says true for at least one of them; a
+				// predicate over other kinds (transaction control) is not a DDL gate
+				about := false
+
+				for val := range ddlKinds {
+					if trueSet[val] {
+						about = true
+					}
+				}
+
+				if !about {
+					continue
+				}
+
+				nPred++
 
 				for _, val := range sortedKeys(ddlKinds) {
 					key := declName(p, fd) + "|" + ddlKinds[val]
